@@ -181,7 +181,7 @@ class EvolvableSimBa(EvolvableModule):
             numb_new_nodes = np.random.choice([16, 32, 64], 1)[0]
 
         # HARD LIMIT
-        if self.hidden_size - numb_new_nodes > self.min_mlp_nodes:
+        if self.hidden_size - numb_new_nodes >= self.min_mlp_nodes:
             self.hidden_size -= numb_new_nodes
 
         return {"numb_new_nodes": numb_new_nodes}
